@@ -204,6 +204,8 @@ func runC16(c *an.Ctx) {
 			}
 			c.Min("C16.c", "store reads of the window search", nRead, 1)
 			c.Min("C16.c", "by-height store reads of renewTail", checkStoreReadsBounded(c, "C16.c", renew), 1)
+			checkRenewedTailStored(c, "C16.e", renew)
+			checkHeadRequestCapScope(c, "C16.e")
 			c.Min("C16.c", "upward steps of the window search", nStep, 1)
 			c.Min("C16.c", "estimates feeding the window search", nInit, 2)
 		}
@@ -221,6 +223,20 @@ func runC16(c *an.Ctx) {
 		c.Check(okArgs && fs.Has(an.LT(fromH, toH)) && fs.Has(an.NotB("IsZero(p2)")), "C16.d", "prune-up",
 			"pruning deletes [oldTail.Height(), newTail.Height()) only when oldTail is set and strictly below newTail", move, d,
 			"args ("+mt.Of(args[1])+", "+mt.Of(args[2])+")", fs)
+		// the range handed to DeleteRange ends inside the stored chain: DeleteRange refuses a tail-side
+		// range that ends above head+1, and a new tail above the store's head is what a node sees that
+		// was offline for longer than the pruning window
+		okEnd := false
+		if len(args) == 3 {
+			onStore := func(s string) bool { return s == "p0.store" || strings.HasPrefix(s, "p0.store.") }
+			for _, hc := range invokesOf(mt, "Height", onStore) {
+				if mf.ProveGEFacts(fs, mt.Affine(hc).Add(an.Const(1)), mt.Affine(args[2]), 0) {
+					okEnd = true
+				}
+			}
+		}
+		c.Check(okEnd, "C16.d", "prune-range-within-store", "the range handed to DeleteRange ends at or below the store's head+1 (a new tail above everything stored must not make the pruning, and with it Head()/Start, fail)", move, d,
+			"end "+an.Stable(mt.Of(args[len(args)-1]))+" is not bounded by the store's height", fs)
 	}
 	syncs := callsTo(move, doSync)
 	c.Min("C16.d", "doSync calls in moveTail", len(syncs), 1)
